@@ -452,6 +452,16 @@ where
             run_std::<T, { 50 * 1024 * 1024 }>(r, ty, Ct::Json, &s, 0, rt);
         }
     }
+    // long bodies with multi-byte characters around byte 256 (error paths that quote the body)
+    for lead in 250..=258usize {
+        for ch in ["\u{e9}", "\u{20ac}", "\u{10000}"] {
+            let doc = format!("\"{}{}{}\"", "a".repeat(lead), ch, "b".repeat(12));
+            for body in [doc.as_bytes().to_vec(), doc.as_bytes()[..doc.len() - 1].to_vec(), format!("[{}, 1]", doc).into_bytes()] {
+                r.states += 1;
+                run_std::<T, { 50 * 1024 * 1024 }>(r, ty, Ct::Json, &script::default_script(&body), 0, rt);
+            }
+        }
+    }
     // every catalogue body, default script and uniform chunkings, JSON, default limit
     for body in catalogue(valid) {
         r.states += 1;
